@@ -27,6 +27,7 @@ def run(ck, an, tier):
     s2(ck, an)
     s3(ck, an)
     s4(ck, an)
+    verified(ck, an)
     s5(ck, an)
     s6(ck, an)
 
@@ -203,6 +204,31 @@ def s4(ck, an):
     fe = an.fa("EventNewObservation.to_list")
     r = [fe.sym.canon(x.value) for x in returns_in(fe)]
     ck.check(r == ["list(self.data.values())"], "ARGFLOW", "S4.row-values-in-column-order", fe.f.short, fe.f.loc, "an observation row is the list of the event's values in column order", f"to_list returns {r}", construct="return list(self.data.values())")
+
+
+def verified(ck, an):
+    """Observations are checked against the declared space before they are returned."""
+    fc = an.fa("IState.__call__")
+    ok = False
+    for r in raises_in(fc):
+        sg = fc.syntactic_guards(r)
+        if any(p[0] == "in" and p[2] == "self.space" and not p[3] for p in sg) and any(p[0] == "truthy" and p[1] == fc.f.params[1] and p[2] for p in sg):
+            ok = True
+    ck.check(ok, "GUARD", "S4.observation-verified-against-space", fc.f.short, fc.f.loc, "with verify=True an observation outside the declared space raises", "IState.__call__ no longer rejects observations outside the declared space",
+             construct="if verify and self.space is not None: if state not in self.space: raise")
+    d = fc.f.param_default(fc.f.params[1])
+    ck.check(const_value(d) is True, "CONST", "S4.verify-default", fc.f.short, fc.f.loc, "verification is on by default", f"verify default is {ast.unparse(d) if d else None}", construct="verify=True")
+    fe = an.fa("TradingEnv.__init__")
+    vs = [s_ for s_ in assigns_to_attr(fe, "_verify_state")]
+    on = [s_ for s_ in vs if isinstance(s_, ast.Assign) and const_value(s_.value) is True and not fe.syntactic_guards(s_)]
+    off = [s_ for s_ in vs if isinstance(s_, ast.Assign) and const_value(s_.value) is not True]
+    ck.check(bool(on) and all(any(p[0] == "truthy" and p[1] == "fit_transformers" and p[2] for p in fe.syntactic_guards(s_)) for s_ in off), "GUARD", "S4.env-verifies-state", fe.f.short, fe.f.loc,
+             "the environment verifies states unless transformers were fitted", "state verification is switched off outside the fit_transformers branch", construct="self._verify_state = True")
+    for short in ("TradingEnv.reset", "TradingEnv.step"):
+        f2 = an.fa(short)
+        cs = [c for c in f2.calls_to("IState.__call__") if isinstance(c, ast.Call)]
+        ck.check(bool(cs) and all([ast.unparse(a) for a in c.args] == ["self._verify_state"] for c in cs), "ARGFLOW", "S4.state-called-with-verify-flag", f2.f.short, f2.f.loc, "the state is produced with the environment's verify flag",
+                 "state() is not called with self._verify_state", construct="self.state(self._verify_state)")
 
 
 def s5(ck, an):
